@@ -12,7 +12,7 @@ import subprocess
 import sys
 from dataclasses import dataclass, field
 from pathlib import Path
-from typing import Any, Dict, Iterator, List, Optional, Tuple
+from typing import Any, Dict, Iterator, List, Optional, Set, Tuple
 
 from .core import AnalysisError, CheckResult, Finding, ModuleInfo, Repo, norm
 
@@ -1027,6 +1027,25 @@ def c05_checks(repo: Repo, tier: str, res: CheckResult, seed: int) -> None:
             if trail != want:
                 res.add(_gen_finding("C05", "TRAIL.generated-wrong-trail", prog, line, f"{cls} trail",
                                      f"{cls} about the node at {list(path)} carries trail {trail}, expected {want}"))
+        if mode == "ALL":
+            # once-per-node flags: a flag that suppresses repeated NoRequiredFields reports may guard one node only
+            guards: Dict[str, Set[str]] = {}
+            lines: Dict[str, int] = {}
+            for iff in [x for x in ast.walk(prog.fn) if isinstance(x, ast.If)]:
+                t = iff.test
+                if not (isinstance(t, ast.UnaryOp) and isinstance(t.op, ast.Not) and isinstance(t.operand, ast.Name)):
+                    continue
+                for c in ast.walk(iff):
+                    if isinstance(c, ast.Call) and isinstance(c.func, ast.Name) and c.func.id.endswith("LoadError") and c.args \
+                            and isinstance(c.args[-1], ast.Name) and c.args[-1].id in S.node_vars | {"data": ()}:
+                        guards.setdefault(t.operand.id, set()).add(c.args[-1].id)
+                        lines.setdefault(t.operand.id, iff.lineno)
+            for flag, nodes_ in guards.items():
+                if len(nodes_) > 1:
+                    res.add(_gen_finding("C05", "ALL.generated-shared-once-flag", prog, lines[flag], "shared once-flag",
+                                         f"the flag `{flag}` suppresses repeated missing-key reports for the nodes {sorted(nodes_)}: "
+                                         "after one mapping reported its missing keys, missing keys of the other mappings are dropped"))
+            # every rejection in ALL mode is collected or raised, never conditional on a flag of another node: checked above
     res.count("TRAIL.generated-programs", n, 300)
 
 
